@@ -1,5 +1,7 @@
 SPECIFICATION TSpec
 CONSTANT Which = "C17"
+CONSTANT SmallLen = 0
+CONSTANT AsBuilt = {}
 CONSTANT MaxLen = 3
 INVARIANT Report
 CHECK_DEADLOCK FALSE
